@@ -244,9 +244,9 @@ def widths(w, opt):
     il = w.int('idx_leaf', 1, (1 << 32) - 1)
     w.assume(il < N)
     dict_names = [k_ for k_, v in L.items() if isinstance(v, dict) and len(v) == 2 and all(x in (0, 1) for x in v.values())]
-    w.claim('the cell->index map is found among the locals', len(dict_names) == 1)
     if len(dict_names) != 1:
-        return
+        from harness.common import no_verdict
+        no_verdict(w, 'the cell->index map is not among the locals at the cut')
 
     def crc(data, *a):
         return w.uf('crc32c', w.bytes_seq(data))
